@@ -301,6 +301,7 @@ func preludeFiles(pkgRel, pkgName string, native bool, needBig bool) map[string]
 }
 
 type group struct {
+	dropped  []string // auxiliary harness files left out because they no longer type-check
 	pkg, dir string
 	specs    []HSpec
 	needBig  bool
@@ -396,6 +397,9 @@ func (rc *runCtx) runGossa() {
 						keep = append(keep, h)
 					}
 					g.specs = keep
+					for b := range dropped {
+						g.dropped = append(g.dropped, b)
+					}
 					ld, err = ld2, nil
 				}
 			}
